@@ -1214,12 +1214,27 @@ impl DhtNetworkManager {
         let mut seen_peer_ids: HashSet<String> = HashSet::new();
         let mut all_nodes: Vec<DHTNode> = Vec::new();
 
+        // A peer that is both in the routing table (named by its DHT key) and connected
+        // (named by its transport ID) is one peer: list it once, under the identifier the
+        // transport can address.
+        let connected_keys: HashSet<[u8; 32]> = {
+            let peers = self.dht_peers.read().await;
+            peers
+                .values()
+                .filter(|p| p.is_connected && !p.addresses.is_empty())
+                .map(|p| p.dht_key)
+                .collect()
+        };
+
         // 1. Check local routing table
         {
             let dht_guard = self.dht.read().await;
             match dht_guard.find_nodes(&DhtKey::from_bytes(*key), count).await {
                 Ok(nodes) => {
                     for node in nodes {
+                        if connected_keys.contains(node.id.as_bytes()) {
+                            continue;
+                        }
                         let id = node.id.to_string();
                         if self.is_local_peer_id(&id) {
                             continue;
